@@ -1,4 +1,5 @@
 import Mieru.Proofs.C08
+import Mieru.Gen.Consts
 /-!
 # C08 — clocks within one minute agree on keys; stale segments are refused; cached key
 # material is never used for another slot
@@ -20,6 +21,14 @@ Domain notes (stated, not hidden):
 -/
 namespace Mieru.C08
 open Mieru.Time Mieru.KeyCache
+
+/-- Tie (T): the slot length the model uses is the one compiled from the current source
+    (`lean/Mieru/Gen/Consts.lean` is regenerated from the repository on every run).  The cache
+    validity interval and the jitter bound are parameters of the model and of every theorem (the
+    property does not depend on their values); the harness passes the compiled values. -/
+theorem consts_tie :
+    Mieru.Gen.keyRefreshIntervalNs = keyRefreshNs ∧
+    Mieru.Gen.keyRefreshIntervalNs = keyRefreshSec * nsPerSec := by decide
 
 /-- The slot is the nearest multiple of 120 s, ties up (characterises `cipherKeyEpoch`). -/
 theorem epoch_nearest (t : Int) :
@@ -94,26 +103,26 @@ theorem minuteU32_eq (t : Int) (ht : 0 ≤ t) (hw : t < 257698037760000000000) :
 
 /-- **Cached key material is never used for another slot.**  For every history of cache
     lookups and `tryDecryptAt` calls — arbitrary (also decreasing) instants, arbitrary jitter
-    draws, starting from any state whose entries were produced by the cache itself — the entry
+    draws, any validity interval, starting from any state whose entries were produced by the cache itself — the entry
     used by each operation carries exactly the keys derived for the slot of that operation's
     instant. -/
-theorem cache_never_crosses_slots {K : Type} (derive : Int → K) (s : State K)
+theorem cache_never_crosses_slots {K : Type} (validNs : Int) (derive : Int → K) (s : State K)
     (hs : Mieru.Proofs.C08.StateOk derive s) (ops : List Op) :
-    ∀ p ∈ run derive s ops, p.2.epoch = epoch p.1 ∧ p.2.keys = derive (epoch p.1) :=
-  Mieru.Proofs.C08.run_ok derive s hs ops
+    ∀ p ∈ run validNs derive s ops, p.2.epoch = epoch p.1 ∧ p.2.keys = derive (epoch p.1) :=
+  Mieru.Proofs.C08.run_ok validNs derive s hs ops
 
 /-- …in particular from the empty cache of a fresh process. -/
-theorem cache_never_crosses_slots_from_empty {K : Type} (derive : Int → K) (ops : List Op) :
-    ∀ p ∈ run derive State.empty ops, p.2.epoch = epoch p.1 ∧ p.2.keys = derive (epoch p.1) :=
-  cache_never_crosses_slots derive State.empty Mieru.Proofs.C08.empty_ok ops
+theorem cache_never_crosses_slots_from_empty {K : Type} (validNs : Int) (derive : Int → K) (ops : List Op) :
+    ∀ p ∈ run validNs derive State.empty ops, p.2.epoch = epoch p.1 ∧ p.2.keys = derive (epoch p.1) :=
+  cache_never_crosses_slots validNs derive State.empty Mieru.Proofs.C08.empty_ok ops
 
 /-- **Handshake key under skew.**  Whatever the cache went through before, a receiver whose
     clock is within 60 s of the sender's tries a key list that contains the key of the sender's
     current slot (keys indexed by the slot they are derived for). -/
 theorem handshake_key_under_skew (s : State (List Int)) (hs : Mieru.Proofs.C08.StateOk slotKeys s)
-    (t d jitterMs : Int) (h1 : -60000000000 ≤ d) (h2 : d ≤ 60000000000) :
-    epoch t ∈ (tryEntry slotKeys s (t + d) jitterMs).1.keys := by
-  have h := (Mieru.Proofs.C08.step_ok slotKeys s hs (.tryDecrypt (t + d) jitterMs)).2.1
+    (validNs t d jitterMs : Int) (h1 : -60000000000 ≤ d) (h2 : d ≤ 60000000000) :
+    epoch t ∈ (tryEntry validNs slotKeys s (t + d) jitterMs).1.keys := by
+  have h := (Mieru.Proofs.C08.step_ok validNs slotKeys s hs (.tryDecrypt (t + d) jitterMs)).2.1
   simp only [step, Op.now] at h
   rw [h]
   have := slot_agreement t d h1 h2
@@ -122,9 +131,9 @@ theorem handshake_key_under_skew (s : State (List Int)) (hs : Mieru.Proofs.C08.S
 
 /-- …and never the key of a slot derived four or more minutes away. -/
 theorem stale_key_never_tried (s : State (List Int)) (hs : Mieru.Proofs.C08.StateOk slotKeys s)
-    (t d jitterMs : Int) (h : d ≤ -240000000000 ∨ 240000000000 ≤ d) :
-    epoch t ∉ (tryEntry slotKeys s (t + d) jitterMs).1.keys := by
-  have hk := (Mieru.Proofs.C08.step_ok slotKeys s hs (.tryDecrypt (t + d) jitterMs)).2.1
+    (validNs t d jitterMs : Int) (h : d ≤ -240000000000 ∨ 240000000000 ≤ d) :
+    epoch t ∉ (tryEntry validNs slotKeys s (t + d) jitterMs).1.keys := by
+  have hk := (Mieru.Proofs.C08.step_ok validNs slotKeys s hs (.tryDecrypt (t + d) jitterMs)).2.1
   simp only [step, Op.now] at hk
   rw [hk]
   have := Mieru.Proofs.C08.slot_far t d h
@@ -146,10 +155,10 @@ example : tsAcceptU32 29836258 0 = true ∧ tsAcceptU32 29836258 4294967295 = tr
 -- … the int64 comparison rejects them
 example : tsAccept 29836258 0 = false ∧ tsAccept 29836258 4294967295 = false := by decide
 -- a state reached by the cache satisfies the invariant hypothesis
-example : Mieru.Proofs.C08.StateOk (fun e => e) (step (fun e => e) State.empty (.tryDecrypt 5 0)).2 :=
-  (Mieru.Proofs.C08.step_ok _ _ Mieru.Proofs.C08.empty_ok _).2.2
+example : Mieru.Proofs.C08.StateOk (fun e => e) (step cacheValidNs (fun e => e) State.empty (.tryDecrypt 5 0)).2 :=
+  (Mieru.Proofs.C08.step_ok _ _ _ Mieru.Proofs.C08.empty_ok _).2.2
 -- a history with a clock step backwards across a slot boundary
-example : (run (fun e => e) State.empty [.lookup 61000000000 0, .tryDecrypt 59000000000 4999, .lookup 61000000001 0]).map
+example : (run cacheValidNs (fun e => e) State.empty [.lookup 61000000000 0, .tryDecrypt 59000000000 4999, .lookup 61000000001 0]).map
     (fun p => (p.2.epoch, p.2.keys)) = [(120, 120), (0, 0), (120, 120)] := by decide
 
 end Mieru.C08
